@@ -53,7 +53,7 @@ func (_this *Reader) Init(config *configuration.Configuration) {
 }
 
 func (_this *Reader) SetReader(reader io.Reader) {
-	_this.reader = &strictReader{reader: reader}
+	_this.reader = &strictReader{reader: reader, onBytesRead: _this.markBytesRead}
 	_this.bytesRead = 0
 }
 
@@ -61,9 +61,13 @@ func (_this *Reader) SetReader(reader io.Reader) {
 // the ULEB128, compact float and compact time decoders) rely on: every call
 // yields at least one byte or an error. The io.Reader contract also allows
 // (0, nil), and data returned together with io.EOF.
+//
+// Every byte of the document passes through here, including the ones consumed
+// by those decoders, so this is where the document size is counted.
 type strictReader struct {
-	reader io.Reader
-	err    error
+	reader      io.Reader
+	err         error
+	onBytesRead func(byteCount int)
 }
 
 func (_this *strictReader) Read(p []byte) (int, error) {
@@ -77,6 +81,7 @@ func (_this *strictReader) Read(p []byte) (int, error) {
 		n, err := _this.reader.Read(p)
 		if n > 0 {
 			_this.err = err
+			_this.onBytesRead(n)
 			return n, nil
 		}
 		if err != nil {
@@ -91,7 +96,6 @@ func (_this *Reader) ReadUint8() uint8 {
 	if _, err := _this.reader.Read(_this.buffer[:1]); err != nil {
 		_this.unexpectedError(err)
 	}
-	_this.markBytesRead(1)
 	return _this.buffer[0]
 }
 
@@ -123,7 +127,6 @@ func (_this *Reader) ReadTypeOrEOF() cbeTypeField {
 		_this.unexpectedError(err)
 	}
 
-	_this.markBytesRead(1)
 	return cbeTypeField(_this.buffer[0])
 }
 
@@ -266,7 +269,6 @@ func (_this *Reader) readIntoBuffer(count int) {
 		if bytesRead, err := _this.reader.Read(dst); err != nil {
 			_this.unexpectedError(err)
 		} else {
-			_this.markBytesRead(bytesRead)
 			dst = dst[bytesRead:]
 		}
 	}
